@@ -181,6 +181,13 @@ def msgInvalidInString (r : Nat) : Bytes :=
 
 def msgEscape (what : Bytes) : Bytes := str "Invalid character escape sequence: \\" ++ what ++ [46]
 
+/-- the single-character escapes of `readString` (regenerated from source as
+    `Gen.stringEscapes` and compared by `C03_gen_escapes_agree`) -/
+def escapeOut (e : Nat) : Option Nat :=
+  if e = 34 ∨ e = 47 ∨ e = 92 then some e
+  else if e = 98 then some 8 else if e = 102 then some 12 else if e = 110 then some 10
+  else if e = 114 then some 13 else if e = 116 then some 9 else none
+
 /-- The body loop of `readString`.  `c` is the end cursor, `acc` the bytes of the value so
     far (reversed), `buf` whether the Go code has switched to its `bytes.Buffer` (after the
     first escape; from then on runes are re-encoded, before that raw bytes are kept).
@@ -205,11 +212,7 @@ def readStringLoop (q : Cur) : Bytes → Cur → Bytes → Bool → Step
             | none => mkErr (c.adv 1 1) (msgEscape [117, h1, h2, h3, h4])
           | _ => mkErr (c.adv 1 1) (msgEscape (e :: tl'))
         else
-          let out : Option Nat :=
-            if e = 34 ∨ e = 47 ∨ e = 92 then some e
-            else if e = 98 then some 8 else if e = 102 then some 12 else if e = 110 then some 10
-            else if e = 114 then some 13 else if e = 116 then some 9 else none
-          match out with
+          match escapeOut e with
           | some o => readStringLoop q tl' (c.adv 2 2) (o :: acc) true
           | none => mkErr (c.adv 1 1) (msgEscape (encodeRune e))
     else
